@@ -156,7 +156,7 @@ prop('C05',
      [('R00.dyn', RG.rule_no_dynamic), ('R05.g', RCa.rule_pair_correlation), ('R05.w', RCa.rule_pmf),
       ('R05.s', RCa.rule_structure_factor), ('R05.b2', RCa.rule_second_virial), ('R05.x', RCa.rule_chi),
       ('R05.l', RCa.rule_spinodal), ('R05.p', RCa.rule_solvation), ('R05.sym', RCa.rule_matrix_symmetry),
-      ('R06.s', RCa.rule_frame_and_typestate)],
+      ('R06.s', RCa.rule_frame_and_typestate), ('R06.h', RCa.rule_resolve_history)],
      'Static analysis of pyPRISM/calculate: each of the seven functions is abstractly interpreted on a symbolic PRISM '
      'object (arrays as tensor symbols, pair loops executed once with symbolic type labels, MatrixArray operators '
      'interpreted from their source) for every flag valuation; the returned term is compared with the definition in '
@@ -183,7 +183,8 @@ prop('C06',
 
 prop('C16',
      [('R00.dyn', RG.rule_no_dynamic), ('R16.x', RP2.rule_system_check), ('R16.d', RP2.rule_check_dominates),
-      ('R16.c', RP2.rule_copy_and_frame), ('R16.w', RP2.rule_wiring), ('R14.c', RT.rule_pairtable_setitem)],
+      ('R16.c', RP2.rule_copy_and_frame), ('R16.w', RP2.rule_wiring), ('R14.c', RT.rule_pairtable_setitem),
+      ('R14.k', RT.rule_setunset_check)],
      'Static analysis of System/PRISM construction: System.__init__ is interpreted to enumerate the tables it creates and '
      'System.check must visit each of them (and refuse a missing domain with ValueError) without writing; in '
      'createPRISM/solve an unconditional self.check() must dominate PRISM(self); PRISM.__init__ is abstractly interpreted '
